@@ -34,7 +34,7 @@ theorem subscribe_wf (g : G) (s j p pi : Nat) (hw : Wf g) : Wf (subscribe g s j 
         rcases node_kind g s hs with h | h
         · exact h
         · exact absurd h hf
-      exact publish_wf g p pi ⟨s, .apply j⟩ hw hwk hp (fun h => by simp [Port.isApply] at h)
+      exact publish_wf g p pi ⟨s, .apply j⟩ hw hwk hp
 
 theorem subscribe_atomic (g : G) (s j p pi : Nat) (hw : Wf g) (he : (subscribe g s j p pi).2.isErr = true) :
     (subscribe g s j p pi).1 = g := by
